@@ -151,8 +151,12 @@ def displayed(report, source, tree, atok, skips):
                 b = parents.get(id(b))
             simple = b is not None and not hasattr(b, "body") and not isinstance(b, (ast.excepthandler, ast.match_case, ast.arguments, ast.arg,
                                                                                   ast.keyword, ast.comprehension, ast.withitem, ast.alias))
+            # (a highlight that runs over several lines is displayed as one element per line: the node's text is enclosed when
+            # every character of it that is not white space lies inside some displayed restriction)
+            restr = [(x, y) for t, x, y in sp if "rules-SyntaxRestriction" in t]
             if simple and not isinstance(a, (ast.expr_context, ast.operator, ast.unaryop, ast.cmpop, ast.boolop)) and hi > lo \
-                    and source[lo:hi].strip() and not any("rules-SyntaxRestriction" in t and x <= lo and hi <= y for t, x, y in sp):
+                    and source[lo:hi].strip() \
+                    and not all(source[k].isspace() or any(x <= k < y for x, y in restr) for k in range(lo, hi)):
                 v.append(("restriction-not-shown", f"{type(a).__name__} at line {l0} col {c0} was not admitted (a prohibited construct "
                                                    f"encloses it) but no displayed syntax restriction encloses its text"))
             continue
